@@ -1629,6 +1629,32 @@ impl<'a, 'c> Gen<'a, 'c> {
     fn stmt_unpack(&mut self) {
         self.label("unpack");
         let n = 2 + self.ch.idx(2);
+        if self.ch.chance(1, 5) {
+            // unpacking iterates: a dict yields its keys, a list its elements (source sizes match the pattern)
+            let from_dict = self.ch.bool();
+            let names: Vec<String> = (0..n).map(|_| self.fresh("v")).collect();
+            let lhs = match self.ch.below(3) {
+                0 => names.join(", "),
+                1 => format!("({})", names.join(", ")),
+                _ => format!("[{}]", names.join(", ")),
+            };
+            if from_dict {
+                self.label("unpack_dict");
+                let items: Vec<String> = (0..n).map(|i| format!("\"u{i}\": {}", self.small_int_lit(0, 9))).collect();
+                self.line(&format!("{lhs} = {{{}}}", items.join(", ")));
+                for nm in names {
+                    self.add_var(nm, Ty::Str, 0, false);
+                }
+            } else {
+                self.label("unpack_list");
+                let items: Vec<String> = (0..n).map(|_| self.small_int_lit(0, 9)).collect();
+                self.line(&format!("{lhs} = [{}]", items.join(", ")));
+                for nm in names {
+                    self.add_var(nm, Ty::Int, 0, false);
+                }
+            }
+            return;
+        }
         let tys: Vec<Ty> = (0..n).map(|_| self.gen_ty(1)).collect();
         let tt = Ty::Tuple(tys.clone());
         let e = self.expr(&tt, 1, true);
